@@ -1,6 +1,7 @@
 (* C02 driver: runs the extracted model of the verifier's decision (Model/Soundness.v) on the cases printed by
    harness/src/bin/c02.rs.  One case per line, tokens "key=value"; field elements are canonical residues in hex.
-     verify <fld> ...   -> "<verdict class>" and, on acceptance, the DEEP evaluations at the query positions
+     verify <fld> ext=<1|2|3> aw=<aux width> ...   -> "<verdict class>" and, on acceptance, the DEEP evaluations at the query
+                        positions; elements of the extension carrier are written c0_c1(_c2)
      valid  <fld> ...   -> "1"/"0": the reference validity predicate valid_b of the model
      seed   <fld> ...   -> the coin seed elements of the statement *)
 open Zio
